@@ -227,6 +227,21 @@ fn make_case(tg: Vec<u16>, eg: Vec<u16>, sg: Vec<u8>, mg: Vec<u16>) -> Json {
     if tool == "xq" {
         sanitize_for_lines(&mut tree);
     }
+    // markup-significant characters in character data and attribute values: the writer escapes them, so
+    // the parsed DOM has several pieces (text, reference, text) behind one merged text node
+    for i in 0..tree.nodes.len() {
+        if matches!(tree.nodes[i].kind, Kind::Text | Kind::Attribute) && tree.nodes[i].prefix.as_deref() != Some("xml") && r.pct(30) {
+            let extra = *r.pick(&["&", "<", "a&b", "x<y>z", "&amp;", "\"", "'", "]]>", "&&"]);
+            if r.pct(50) {
+                tree.nodes[i].value.push_str(extra);
+            } else {
+                tree.nodes[i].value = format!("{}{}", extra, tree.nodes[i].value);
+            }
+            if !labels.contains(&"doc-has-escaped-characters".to_string()) {
+                labels.push("doc-has-escaped-characters".into());
+            }
+        }
+    }
     let m = mode(&mut r);
     let mut doc = vp_xref::to_xml(&tree);
     if m.xml_decl {
@@ -615,6 +630,9 @@ impl Property for C17 {
     fn cpu_budget_s(&self) -> u64 {
         20
     }
+    fn max_shrink_steps(&self) -> u64 {
+        250 // every attempt starts a process
+    }
     fn strategy(&self, _tier: Tier) -> BoxedStrategy<Json> {
         (
             proptest::collection::vec(any::<u16>(), 0..160),
@@ -870,12 +888,13 @@ impl Property for C17 {
     fn floors(&self, _tier: Tier) -> Vec<(&'static str, f64)> {
         vec![
             ("tool:xe", 0.3),
+            ("doc-has-escaped-characters", 0.3),
             ("tool:xq", 0.3),
             ("edits:element", 0.08),
-            ("edits:attribute", 0.02),
+            ("edits:attribute", 0.015),
             ("edits:root", 0.01),
             ("nested-selection", 0.01),
-            ("prints:element", 0.05),
+            ("prints:element", 0.025),
             ("prints:scalar", 0.03),
             ("indented", 0.1),
             ("stdin", 0.1),
